@@ -65,6 +65,14 @@ pub fn subjects(thorough: bool) -> Vec<(String, Logical)> {
         v.push((format!("three-tiles/{}", cname(c)), small_logical(c)));
         v.push((format!("runs-60/{}", cname(c)), scale_family(0, 60, c)));
     }
+    if thorough {
+        // every partial map of three ids into four contents, all codecs
+        for c in COMPS {
+            for (i, l) in small_maps(3, c).into_iter().enumerate() {
+                v.push((format!("small-map-{i}/{}", cname(c)), l));
+            }
+        }
+    }
     for c in if thorough { COMPS.to_vec() } else { vec![Compression::None, Compression::GZip] } {
         let n = crossing(1, c, &window_logical_entries) + 25;
         v.push((format!("leaf-spill-{n}/{}", cname(c)), window_logical(1, n, c)));
